@@ -284,5 +284,94 @@ theorem isTet_of_tetOn_rot {k : Kernel} {c p q r s : Nat} (hv : Rot (k.hfVerts (
   · exact isTet_of_tetOn e h.rot_base
   · exact isTet_of_tetOn e h.rot_base.rot_base
 
+/-! ### consecutive pairs in three-cycles; list helpers -/
+
+/-- `b` follows `a` cyclically in the three-cycle `l` -/
+def Consec (l : List Nat) (a b : Nat) : Prop :=
+  match l with
+  | [x, y, z] => (a = x ∧ b = y) ∨ (a = y ∧ b = z) ∨ (a = z ∧ b = x)
+  | _ => False
+
+theorem tris_consec (p q r s : Nat) {a b : Nat} (ha : a ∈ [p, q, r, s]) (hb : b ∈ [p, q, r, s]) (hab : a ≠ b) :
+    ∃ t ∈ tris p q r s, Consec t a b := by
+  simp only [List.mem_cons, List.not_mem_nil, or_false] at ha hb
+  have m0 : [p, q, r] ∈ tris p q r s := by simp [tris]
+  have m1 : [q, p, s] ∈ tris p q r s := by simp [tris]
+  have m2 : [r, q, s] ∈ tris p q r s := by simp [tris]
+  have m3 : [p, r, s] ∈ tris p q r s := by simp [tris]
+  rcases ha with ha | ha | ha | ha <;> rcases hb with hb | hb | hb | hb <;>
+    first
+    | exact absurd (ha.trans hb.symm) hab
+    | (refine ⟨_, m0, ?_⟩; simp [Consec, ha, hb]; done)
+    | (refine ⟨_, m1, ?_⟩; simp [Consec, ha, hb]; done)
+    | (refine ⟨_, m2, ?_⟩; simp [Consec, ha, hb]; done)
+    | (refine ⟨_, m3, ?_⟩; simp [Consec, ha, hb]; done)
+
+theorem rot_consec {x t : List Nat} {a b : Nat} (hr : Rot x t) (ht : t.length = 3) (h : Consec t a b) : Consec x a b := by
+  match t, ht with
+  | [u, v, w], _ =>
+    rcases (rot_three x u v w).mp hr with rfl | rfl | rfl <;> simp only [Consec] at h ⊢ <;>
+      rcases h with h | h | h <;> simp [h]
+
+theorem consec_of_rot {x t : List Nat} {a b : Nat} (hr : Rot x t) (hx : x.length = 3) (h : Consec x a b) : Consec t a b := by
+  have ht : t.length = 3 := by rw [← hr.length]; exact hx
+  exact rot_consec (Rot.symm3 hr ht) hx h
+
+/-- every ordered pair of vertices is run through by exactly one of the four triangles -/
+theorem tris_consec_unique (p q r s : Nat) (hd : [p, q, r, s].Nodup) {t1 t2 : List Nat} (h1 : t1 ∈ tris p q r s)
+    (h2 : t2 ∈ tris p q r s) {u v : Nat} (c1 : Consec t1 u v) (c2 : Consec t2 u v) : t1 = t2 := by
+  simp only [List.nodup_cons, List.mem_cons, List.not_mem_nil, or_false, not_or, List.nodup_nil, and_true] at hd
+  obtain ⟨⟨hpq, hpr, hps⟩, ⟨hqr, hqs⟩, hrs, _⟩ := hd
+  simp only [tris, List.mem_cons, List.not_mem_nil, or_false] at h1 h2
+  rcases h1 with rfl | rfl | rfl | rfl <;> rcases h2 with rfl | rfl | rfl | rfl <;>
+    first
+    | rfl
+    | (exfalso
+       simp only [Consec] at c1 c2
+       rcases c1 with ⟨rfl, rfl⟩ | ⟨rfl, rfl⟩ | ⟨rfl, rfl⟩ <;> rcases c2 with ⟨e1, e2⟩ | ⟨e1, e2⟩ | ⟨e1, e2⟩ <;>
+         first
+         | exact hpq e1 | exact hpq e1.symm | exact hpr e1 | exact hpr e1.symm | exact hps e1 | exact hps e1.symm
+         | exact hqr e1 | exact hqr e1.symm | exact hqs e1 | exact hqs e1.symm | exact hrs e1 | exact hrs e1.symm
+         | exact hpq e2 | exact hpq e2.symm | exact hpr e2 | exact hpr e2.symm | exact hps e2 | exact hps e2.symm
+         | exact hqr e2 | exact hqr e2.symm | exact hqs e2 | exact hqs e2.symm | exact hrs e2 | exact hrs e2.symm)
+
+theorem nodup_map_inj {α β} (f : α → β) : ∀ (l : List α), (l.map f).Nodup → ∀ x ∈ l, ∀ y ∈ l, f x = f y → x = y := by
+  intro l
+  induction l with
+  | nil => intro _ x hx; cases hx
+  | cons a t ih =>
+    intro hn x hx y hy e
+    simp only [List.map_cons, List.nodup_cons, List.mem_map, not_exists, not_and] at hn
+    rcases List.mem_cons.mp hx with rfl | hx' <;> rcases List.mem_cons.mp hy with rfl | hy'
+    · rfl
+    · exact absurd e.symm (hn.1 y hy')
+    · exact absurd e (hn.1 x hx')
+    · exact ih hn.2 x hx' y hy' e
+
+theorem nodup_of_map' {α β} (f : α → β) : ∀ l : List α, (l.map f).Nodup → l.Nodup := by
+  intro l
+  induction l with
+  | nil => intro _; exact List.nodup_nil
+  | cons a t ih =>
+    intro h
+    simp only [List.map_cons, List.nodup_cons, List.mem_map, not_exists, not_and] at h
+    exact List.nodup_cons.mpr ⟨fun hm => h.1 a hm rfl, ih h.2⟩
+
+theorem nodup_map_on' {α β} (f : α → β) : ∀ l : List α, (∀ x ∈ l, ∀ y ∈ l, f x = f y → x = y) → l.Nodup → (l.map f).Nodup := by
+  intro l
+  induction l with
+  | nil => intro _ _; exact List.nodup_nil
+  | cons a t ih =>
+    intro hinj hn
+    have hn' := List.nodup_cons.mp hn
+    simp only [List.map_cons]
+    refine List.nodup_cons.mpr ⟨?_, ih (fun x hx y hy => hinj x (List.mem_cons_of_mem _ hx) y (List.mem_cons_of_mem _ hy)) hn'.2⟩
+    intro hm
+    obtain ⟨y, hy, e⟩ := List.mem_map.mp hm
+    have := hinj y (List.mem_cons_of_mem _ hy) a (by simp) e
+    subst this
+    exact hn'.1 hy
+
+
 end Kernel
 end OVM
